@@ -107,9 +107,15 @@ func child(spec string) {
 	if c.Self >= 0 {
 		self = time.After(time.Duration(t0+int64(c.Self)*1e6-mono()) * time.Nanosecond)
 	}
+	// the agent exits at the earliest of the moments its causes give
 	var exitAt <-chan time.Time
+	var exitDeadline int64
 	arm := func(ms int) {
-		if ms >= 0 && exitAt == nil {
+		if ms < 0 {
+			return
+		}
+		if dl := mono() + int64(ms)*1e6; exitAt == nil || dl < exitDeadline {
+			exitDeadline = dl
 			exitAt = time.After(time.Duration(ms) * time.Millisecond)
 		}
 	}
